@@ -210,3 +210,23 @@ impl Writer for Context {
         )
     }
 }
+
+/// Verification hook: build a blocking context around any asynchronous context.
+#[cfg(feature = "verif-hooks")]
+impl Context {
+    pub fn verif_from_async(
+        runtime: tokio::runtime::Runtime,
+        async_ctx: AsyncContext,
+        timeout: Option<Duration>,
+    ) -> Self {
+        Self {
+            runtime,
+            async_ctx,
+            timeout,
+        }
+    }
+
+    pub fn verif_runtime(&self) -> &tokio::runtime::Runtime {
+        &self.runtime
+    }
+}
